@@ -435,7 +435,8 @@ def vtlp_rules(ck, P, rule="R-TABLE-INDEX"):
                     ih, eh = binds[0]["hid"], binds[1]["hid"]
                     ok = eh in {ir.local_hid(y) for y in ir.walk_nodes(t["es"][0])} and ir.local_hid(ir.strip(t["es"][1]) if ir.strip(t["es"][1]).get("k") != "cast" else ir.strip(t["es"][1])["e"]) == ih
                     src = ir.strip(en[0]["recv"])
-                    ok = ok and src.get("k") == "mcall" and src.get("name") == "iter" and ir.place_str(src["recv"]) == "list"
+                    lp_ = [x["hid"] for p_ in b["params"] for x in ir.pat_binds(p_) if x["t"].startswith("std::vec::Vec<")]
+                    ok = ok and src.get("k") == "mcall" and src.get("name") == "iter" and ir.local_hid(src["recv"]) in lp_
         ck.check(ok, rule, b["q"] + "|enumerate", "new() maps each list element to its own position (list.iter().enumerate())", "new() does not build map = {list[i] -> i}", ir.loc(b))
 
 
